@@ -44,6 +44,14 @@ def strip(t):
     return t
 
 
+def as_set(t):
+    """The array whose SET of elements `t` has: np.unique / np.sort / np.asarray / np.array of one array are peeled (intersect1d sorts and de-duplicates anyway)."""
+    while is_t(t) and t[1] == 'call' and t[2] in ('np.unique', 'np.sort', 'np.asarray', 'np.array', 'np.atleast_1d', 'unique', 'sorted') and \
+            len([a for a in t[4:] if not (is_t(a) and a[1] == 'kw')]) == 1 and not any(is_t(a) and a[1] == 'kw' and a[2] in ('return_index', 'return_inverse', 'return_counts', 'axis') for a in t[4:]):
+        t = [a for a in t[4:] if not (is_t(a) and a[1] == 'kw')][0]
+    return t
+
+
 def parse_selection(t, selfterm, subset_p):
     """term -> (base term, [filters], problems)"""
     filters, probs = [], []
@@ -83,13 +91,16 @@ def parse_selection(t, selfterm, subset_p):
             continue
         if is_t(cur) and cur[1] == 'call' and cur[2] in ('np.intersect1d', 'intersect1d'):
             args = cur[4:]
-            other = [a for a in args if a == T('param', subset_p)]
-            rest = [a for a in args if a != T('param', subset_p) and not (is_t(a) and a[1] == 'kw')]
+            other = [a for a in args if as_set(a) == T('param', subset_p)]
+            rest = [a for a in args if as_set(a) != T('param', subset_p) and not (is_t(a) and a[1] == 'kw')]
             if len(other) != 1 or len(rest) != 1:
                 probs.append('intersect1d is not taken between the current selection and the given subset')
                 return cur, filters, probs
             filters.append('subset')
             cur = rest[0]
+            continue
+        if as_set(cur) is not cur:
+            cur = as_set(cur)          # sorting / de-duplicating / array conversion: the same set of spikes
             continue
         if is_t(cur) and cur[1] == 'call' and cur[2] in ('np.random.choice', 'choice', 'np.random.permutation'):
             args = [a for a in cur[4:] if not (is_t(a) and a[1] == 'kw')]
